@@ -253,7 +253,7 @@ def main(ctx):
                 "counts when the GNU-ld-built program prints all ok with >=8 checks over >=2 symbol kinds")
     ctx.assumptions = ["GNU ld 2.40 calibrates each program; glibc's dynamic loader is trusted"]
     tools.wild()
-    n = ctx.pick(50, 600)
+    n = ctx.pick(50, 300)
     jobs = [f"pinned{i}" for i in range(len(pinned_cases()))] + list(range(n))
     if ctx.replay is not None:
         c = str(ctx.replay["case"])
